@@ -61,9 +61,11 @@ Definition set_key {A : Type} (k : bytes) (v : A) (m : list (bytes * A)) : list 
   (k, v) :: remove_key k m.
 
 (* Evaluate: clone(contextMaps[0]) then maps.Copy(clone, later) : the later map overwrites.
-   EvaluateTupleCondition passes [request context, tuple context]. *)
+   EvaluateTupleCondition passes [request context, tuple context].  (A context is a map: its keys
+   are distinct; on an association list with a repeated key the first binding is the one that
+   [lookup] sees, and the fold keeps exactly that one.) *)
 Definition merge (req stored : ctx) : ctx :=
-  fold_left (fun m kv => set_key (fst kv) (snd kv) m) stored req.
+  fold_right (fun kv m => set_key (fst kv) (snd kv) m) req stored.
 
 (* ------------------------------------------------------------------------------------------ *)
 (* structpb.Value.AsInterface: NaN and infinities become strings                               *)
@@ -120,38 +122,36 @@ Definition round_frac (prec n d : Z) : Z * Z * bool :=
     ((if up then hi + 1 else hi), dd - s, (lo =? 0) && negb sticky).
 
 (* Float.pow5: the table up to 5^27 is exact; above, z (128 bits) and f (192 bits) are rounded
-   after every multiplication. *)
-Definition mul_round (prec : Z) (a b : Z * Z) : Z * Z * bool :=
-  let '(m, e, x) := round_frac prec (fst a * fst b) 1 in (m, e + snd a + snd b, x).
+   after every multiplication.  Values are pairs (m, e) = m * 2^e. *)
+Definition mul_round (prec : Z) (a b : Z * Z) : Z * Z :=
+  let '(m, e, _) := round_frac prec (fst a * fst b) 1 in (m, e + snd a + snd b).
 
-Fixpoint pow5_loop (n : positive) (z f : Z * Z) (x : bool) : Z * Z * bool :=
+Fixpoint pow5_loop (n : positive) (z f : Z * Z) : Z * Z :=
   match n with
-  | xH => let '(m, e, x1) := mul_round 128 z f in (m, e, x && x1)
-  | xO n' => let '(fm, fe, x2) := mul_round 192 f f in pow5_loop n' z (fm, fe) (x && x2)
-  | xI n' =>
-      let '(m, e, x1) := mul_round 128 z f in
-      let '(fm, fe, x2) := mul_round 192 f f in
-      pow5_loop n' (m, e) (fm, fe) (x && x1 && x2)
+  | xH => mul_round 128 z f
+  | xO n' => pow5_loop n' z (mul_round 192 f f)
+  | xI n' => pow5_loop n' (mul_round 128 z f) (mul_round 192 f f)
   end.
 
-Definition pow5 (n : Z) : Z * Z * bool :=
-  if n <=? 27 then (5 ^ n, 0, true)
+Definition pow5 (n : Z) : Z * Z :=
+  if n <=? 27 then (5 ^ n, 0)
   else match n - 27 with
-       | Zpos p => pow5_loop p (5 ^ 27, 0) (5, 0) true
-       | _ => (5 ^ n, 0, true)
+       | Zpos p => pow5_loop p (5 ^ 27, 0) (5, 0)
+       | _ => (5 ^ n, 0)
        end.
 
-(* value = (+-) mant * 2^e2 * 5^e5, mant > 0 ; the result and whether it is exact *)
-Definition bigf_of_parts (neg : bool) (mant e2 e5 : Z) : bigf * bool :=
-  let sg (m : Z) := if neg then - m else m in
-  if e5 =? 0 then
-    let '(m, e, x) := round_frac 64 mant 1 in (BFin (sg m) (e + e2), x)
-  else if 0 <? e5 then
-    let '(pm, pe, px) := pow5 e5 in
-    let '(m, e, x) := round_frac 64 (mant * pm) 1 in (BFin (sg m) (e + e2 + pe), x && px)
+(* mant * 2^e2 * 5^e5 as a fraction (numerator, denominator) *)
+Definition exact_parts (mant e2 e5 : Z) : Z * Z :=
+  (mant * 2 ^ Z.max e2 0 * 5 ^ Z.max e5 0, 2 ^ Z.max (- e2) 0 * 5 ^ Z.max (- e5) 0).
+
+(* the fraction that Float.scan rounds: the power of five is exact up to the table size, and
+   pow5's approximation beyond; the flag says which *)
+Definition coded_parts (mant e2 e5 : Z) : Z * Z * bool :=
+  if Z.abs e5 <=? 27 then (exact_parts mant e2 e5, true)
   else
-    let '(pm, pe, px) := pow5 (- e5) in
-    let '(m, e, x) := round_frac 64 mant pm in (BFin (sg m) (e + e2 - pe), x && px).
+    let '(pm, pe) := pow5 (Z.abs e5) in
+    if 0 <? e5 then (mant * pm * 2 ^ Z.max (e2 + pe) 0, 2 ^ Z.max (- (e2 + pe)) 0, false)
+    else (mant * 2 ^ Z.max (e2 - pe) 0, pm * 2 ^ Z.max (pe - e2) 0, false).
 
 (* ------------------------------------------------------------------------------------------ *)
 (* big.ParseFloat(s, 10, 64, ToNearestEven)                                                    *)
@@ -195,39 +195,56 @@ Definition scan_exp (s : bytes) : option (Z * bool * bytes) :=
       else Some (0, false, s)
   end.
 
-Inductive pres :=
-| PErr                                (* ParseFloat returns an error *)
-| POut                                (* outside the modelled range (|exponent| > 400 or > 80 digits) *)
-| POk (b : bigf) (exact : bool).
-
 Definition s_Inf : bytes := [73; 110; 102]%N.
 Definition s_inf : bytes := [105; 110; 102]%N.
 
-Definition parse_bigf (s : bytes) : pres :=
-  if beqb s s_Inf || beqb s s_inf then POk (BInf false) true
+(* the syntax of Float.Parse: what the string denotes, before any rounding *)
+Inductive scanres :=
+| ScErr                               (* not a number: ParseFloat returns an error *)
+| ScOut                               (* outside the modelled range (|exponent| > 400 or > 80 digits) *)
+| ScInf (neg : bool)
+| ScNum (neg : bool) (mant e2 e5 : Z). (* (+-) mant * 2^e2 * 5^e5, mant >= 0 *)
+
+Definition scan_number (s : bytes) : scanres :=
+  if beqb s s_Inf || beqb s s_inf then ScInf false
   else match s with
-  | [] => PErr
+  | [] => ScErr
   | c :: s' =>
-      if ((c =? 43) || (c =? 45))%N && (beqb s' s_Inf || beqb s' s_inf) then POk (BInf (c =? 45)%N) true
+      if ((c =? 43) || (c =? 45))%N && (beqb s' s_Inf || beqb s' s_inf) then ScInf (c =? 45)%N
       else
         let '(neg, s1) := if (c =? 45)%N then (true, s') else if (c =? 43)%N then (false, s') else (false, s) in
         let '(mant, count, dp, rest) := scan_mant s1 true 0 0 None in
-        if count =? 0 then PErr else
+        if count =? 0 then ScErr else
         match scan_exp rest with
-        | None => PErr
+        | None => ScErr
         | Some (ex, b2, rest') =>
             match rest' with
-            | _ :: _ => PErr
+            | _ :: _ => ScErr
             | [] =>
-                if (80 <? count) || (400 <? Z.abs ex) then POut
-                else if mant =? 0 then POk (BFin 0 0) true
+                if (80 <? count) || (400 <? Z.abs ex) then ScOut
                 else
                   let fc := match dp with Some p => p - count | None => 0 end in
-                  let e2 := fc + ex in
-                  let e5 := if b2 then fc else fc + ex in
-                  let '(b, x) := bigf_of_parts neg mant e2 e5 in POk b x
+                  ScNum neg mant (fc + ex) (if b2 then fc else fc + ex)
             end
         end
+  end.
+
+Inductive pres :=
+| PErr
+| POut
+| POk (b : bigf) (exact : bool).     (* the big.Float, and whether it is the exact value *)
+
+Definition parse_bigf (s : bytes) : pres :=
+  match scan_number s with
+  | ScErr => PErr
+  | ScOut => POut
+  | ScInf n => POk (BInf n) true
+  | ScNum neg mant e2 e5 =>
+      if mant =? 0 then POk (BFin 0 0) true
+      else
+        let '(n, d, px) := coded_parts mant e2 e5 in
+        let '(m, e, x) := round_frac 64 n d in
+        POk (BFin (if neg then - m else m) e) (x && px)
   end.
 
 (* ------------------------------------------------------------------------------------------ *)
@@ -364,36 +381,20 @@ Fixpoint convert (t : ptype) (v : jval) : cres :=
 Inductive sres := SErr | SOut | SInf (neg : bool) | SFrac (num den : Z).
 
 Definition scan_exact (s : bytes) : sres :=
-  if beqb s s_Inf || beqb s s_inf then SInf false
-  else match s with
-  | [] => SErr
-  | c :: s' =>
-      if ((c =? 43) || (c =? 45))%N && (beqb s' s_Inf || beqb s' s_inf) then SInf (c =? 45)%N
-      else
-        let '(neg, s1) := if (c =? 45)%N then (true, s') else if (c =? 43)%N then (false, s') else (false, s) in
-        let '(mant, count, dp, rest) := scan_mant s1 true 0 0 None in
-        if count =? 0 then SErr else
-        match scan_exp rest with
-        | None => SErr
-        | Some (ex, b2, rest') =>
-            match rest' with
-            | _ :: _ => SErr
-            | [] =>
-                if (80 <? count) || (400 <? Z.abs ex) then SOut
-                else
-                  let fc := match dp with Some p => p - count | None => 0 end in
-                  let e2 := fc + ex in
-                  let e5 := if b2 then fc else fc + ex in
-                  SFrac ((if neg then - mant else mant) * 2 ^ Z.max e2 0 * 5 ^ Z.max e5 0)
-                        (2 ^ Z.max (- e2) 0 * 5 ^ Z.max (- e5) 0)
-            end
-        end
+  match scan_number s with
+  | ScErr => SErr
+  | ScOut => SOut
+  | ScInf n => SInf n
+  | ScNum neg mant e2 e5 =>
+      let '(n, d) := exact_parts mant e2 e5 in SFrac (if neg then - n else n) d
   end.
 
 (* the exact numeric value of a context value, as a fraction *)
+Definition dy_frac (m e : Z) : Z * Z := (m * 2 ^ Z.max e 0, 2 ^ Z.max (- e) 0).
+
 Definition exact_frac (v : jval) : sres :=
   match v with
-  | JNum (FFin m e) => SFrac (m * 2 ^ Z.max e 0) (2 ^ Z.max (- e) 0)
+  | JNum (FFin m e) => let '(n, d) := dy_frac m e in SFrac n d
   | JNum (FInf n) => SInf n
   | JStr s => scan_exact s
   | _ => SErr
@@ -428,6 +429,13 @@ Definition num_clamped (v : jval) : bool :=
   match v with
   | JNum (FFin m e) => clamped_bigf (BFin m e)
   | JStr s => match parse_bigf s with POk b _ => clamped_bigf b | _ => false end
+  | _ => false
+  end.
+
+(* the decimal string is not exactly representable in the 64 bits ParseFloat keeps *)
+Definition num_inexact (v : jval) : bool :=
+  match v with
+  | JStr s => match parse_bigf s with POk _ x => negb x | _ => false end
   | _ => false
   end.
 
